@@ -13,6 +13,12 @@ struct Doc {
 }
 
 fn build_doc(table: &Table, crlf: bool, comments: bool) -> Doc {
+    build_doc_layout(table, crlf, comments, false)
+}
+
+/// `spread`: every token of an assignment on a line of its own, so that an error deep inside an assignment lies many lines
+/// below the line the assignment starts on
+fn build_doc_layout(table: &Table, crlf: bool, comments: bool, spread: bool) -> Doc {
     let nl = if crlf { "\r\n" } else { "\n" };
     let mut text = String::new();
     let mut spans = vec![];
@@ -26,7 +32,15 @@ fn build_doc(table: &Table, crlf: bool, comments: bool) -> Doc {
             if comments && i % 2 == 0 {
                 text.push_str(&format!("-- definition {i}{nl}"));
             }
-            let t = table.def_text(d.idx);
+            if comments && i % 3 == 1 {
+                // a longer run of comment and blank lines between two assignments
+                text.push_str(&format!("-- a note that goes on{nl}-- for several lines{nl}{nl}--{nl}-- and on{nl}{nl}-- until here{nl}"));
+            }
+            let mut t = table.def_text(d.idx);
+            if spread {
+                let toks = tokenize(&t);
+                t = toks.iter().map(|k| &t[k.start..k.end]).collect::<Vec<_>>().join(nl);
+            }
             let start = text.len();
             text.push_str(&t);
             spans.push((start, text.len()));
@@ -66,7 +80,7 @@ fn marked_line(ctx: &str) -> i64 {
 fn one(ci: usize, plan: &Value, di: usize, table: &Table, dir: &str) -> Value {
     let crlf = plan["crlf"].as_bool().unwrap();
     let file = plan["file"].as_bool().unwrap();
-    let doc = build_doc(table, crlf, (ci + di) % 2 == 0);
+    let doc = build_doc_layout(table, crlf, (ci + di) % 2 == 0, (ci + di) % 3 == 2);
     let a = plan["a"].as_u64().unwrap() as usize % doc.spans.len();
     let (s0, s1) = doc.spans[a];
     let toks: Vec<Tok> = tokenize(&doc.text[s0..s1]);
